@@ -56,6 +56,14 @@ pub trait Unweighted:
     /// mostly `empty(n)` + `add_arc` in ascending order, sometimes `add_arc`
     /// in a scrambled order, sometimes `From<iterator>` (`build_alt`).
     fn build(m: &Model) -> Self {
+        let mut d = Self::build_plain(m);
+        if route_edits(m) {
+            edit_without_effect(&mut d, m);
+        }
+        d
+    }
+    /// `build` without the trailing edits.
+    fn build_plain(m: &Model) -> Self {
         let n = m.n();
         match route(m, 11) {
             4 => {
@@ -111,6 +119,133 @@ pub trait Unweighted:
     fn build_alt(m: &Model) -> Self;
 }
 
+/// One construction in four (independent of the route) is followed by a short
+/// run of edits that leave the abstract digraph as it is.
+fn route_edits(m: &Model) -> bool {
+    let salt = ROUTE_SALT.with(|c| c.get());
+    crate::rng::mix(salt.rotate_left(17) ^ 0x5eed ^ (m.size() as u64).rotate_left(24) ^ m.n() as u64) % 4 == 0
+}
+
+/// Up to six edits, chosen by the case and the model, none of which changes
+/// (V, A): removing an absent arc whose head lies above every out-neighbour
+/// of its tail, or whose head or tail is outside V, or a self-loop; adding
+/// and removing an arc that is not in A; removing and re-adding one that is.
+pub fn edit_without_effect<D: graaf::AddArc + graaf::RemoveArc + graaf::HasArc>(d: &mut D, m: &Model) {
+    let n = m.n();
+    if n == 0 {
+        return;
+    }
+    let salt = ROUTE_SALT.with(|c| c.get());
+    let mut x = crate::rng::mix(salt ^ 0xed17 ^ (m.size() as u64) << 20 ^ n as u64);
+    let mut next = |k: usize| {
+        x = crate::rng::mix(x.wrapping_add(0x9e37_79b9_7f4a_7c15));
+        (x % k.max(1) as u64) as usize
+    };
+    let arcs = m.arc_list();
+    for _ in 0..(1 + next(6)) {
+        let u = next(n);
+        match next(6) {
+            0 => {
+                // absent arc above the row's largest head
+                let top = m.out(u).into_iter().max().map_or(0, |t| t + 1);
+                if top < n {
+                    let v = top + next(n - top);
+                    if v != u && !m.has(u, v) {
+                        let _ = d.remove_arc(u, v);
+                    }
+                }
+            }
+            1 => {
+                let far = [n, n + 1, 2 * n + 1, usize::MAX][next(4)];
+                let _ = if next(2) == 0 { d.remove_arc(u, far) } else { d.remove_arc(far, u) };
+            }
+            2 => {
+                let v = next(n);
+                if u != v && !m.has(u, v) {
+                    d.add_arc(u, v);
+                    let _ = d.remove_arc(u, v);
+                }
+            }
+            3 if !arcs.is_empty() => {
+                let (a, b) = arcs[next(arcs.len())];
+                let _ = d.remove_arc(a, b);
+                d.add_arc(a, b);
+            }
+            4 => {
+                let _ = d.remove_arc(u, u);
+            }
+            _ => {
+                // absent arc anywhere
+                let v = next(n);
+                if u != v && !m.has(u, v) {
+                    let _ = d.remove_arc(u, v);
+                }
+            }
+        }
+    }
+}
+
+/// The weighted counterpart of `edit_without_effect`.
+fn edit_without_effect_w<W: Copy>(d: &mut AdjacencyListWeighted<W>, m: &Model, conv: &impl Fn(i64) -> W, other: W) {
+    use graaf::{AddArcWeighted, RemoveArc};
+    let n = m.n();
+    if n == 0 {
+        return;
+    }
+    let salt = ROUTE_SALT.with(|c| c.get());
+    let mut x = crate::rng::mix(salt ^ 0xed18 ^ (m.size() as u64) << 20 ^ n as u64);
+    let mut next = |k: usize| {
+        x = crate::rng::mix(x.wrapping_add(0x9e37_79b9_7f4a_7c15));
+        (x % k.max(1) as u64) as usize
+    };
+    let arcs = m.arc_list();
+    for _ in 0..(1 + next(6)) {
+        let u = next(n);
+        match next(7) {
+            0 => {
+                let top = m.out(u).into_iter().max().map_or(0, |t| t + 1);
+                if top < n {
+                    let v = top + next(n - top);
+                    if v != u && !m.has(u, v) {
+                        let _ = d.remove_arc(u, v);
+                    }
+                }
+            }
+            1 => {
+                let far = [n, n + 1, 2 * n + 1, usize::MAX][next(4)];
+                let _ = if next(2) == 0 { d.remove_arc(u, far) } else { d.remove_arc(far, u) };
+            }
+            2 => {
+                let v = next(n);
+                if u != v && !m.has(u, v) {
+                    d.add_arc_weighted(u, v, other);
+                    let _ = d.remove_arc(u, v);
+                }
+            }
+            3 if !arcs.is_empty() => {
+                let (a, b) = arcs[next(arcs.len())];
+                let _ = d.remove_arc(a, b);
+                d.add_arc_weighted(a, b, conv(m.arcs[&(a, b)]));
+            }
+            4 => {
+                let _ = d.remove_arc(u, u);
+            }
+            5 if !arcs.is_empty() => {
+                // re-adding replaces the weight
+                let (a, b) = arcs[next(arcs.len())];
+                d.add_arc_weighted(a, b, other);
+                d.add_arc_weighted(a, b, conv(m.arcs[&(a, b)]));
+            }
+            _ => {
+                let v = next(n);
+                if u != v && !m.has(u, v) {
+                    let _ = d.remove_arc(u, v);
+                }
+            }
+        }
+    }
+}
+
 /// The arcs of `m` in an arrival order that depends on the model: ascending,
 /// descending, or scrambled (From<iterator of arcs> must not care).
 pub fn arcs_in_some_order(m: &Model) -> Vec<(usize, usize)> {
@@ -119,6 +254,28 @@ pub fn arcs_in_some_order(m: &Model) -> Vec<(usize, usize)> {
         0 => {}
         1 => a.reverse(),
         _ => a.sort_by_key(|&(u, v)| crate::rng::mix((u as u64) << 32 ^ v as u64 ^ m.size() as u64)),
+    }
+    // one list in three names some arcs twice or three times (next to the
+    // first mention or at the end): adding is idempotent and From<iterator of
+    // arcs> collapses duplicates
+    let salt = ROUTE_SALT.with(|c| c.get());
+    if crate::rng::mix(salt.rotate_left(29) ^ 0xd0b1e ^ a.len() as u64) % 3 == 0 && a.len() <= 100_000 {
+        let mut out = Vec::with_capacity(a.len() + a.len() / 3 + 2);
+        let mut tail = Vec::new();
+        for (i, &arc) in a.iter().enumerate() {
+            out.push(arc);
+            match crate::rng::mix(salt ^ (i as u64) << 8 ^ 0xd0) % 9 {
+                0 => out.push(arc),
+                1 => tail.push(arc),
+                2 => {
+                    out.push(arc);
+                    tail.push(arc);
+                }
+                _ => {}
+            }
+        }
+        out.extend(tail);
+        a = out;
     }
     a
 }
@@ -212,6 +369,14 @@ pub fn build_map_any(m: &Model) -> AdjacencyMap {
 /// arcs are first added with another weight and then re-added (re-adding
 /// replaces the weight); or `From<iterator of weight maps>`.
 fn build_weighted<W: Copy>(m: &Model, conv: impl Fn(i64) -> W, other: W) -> AdjacencyListWeighted<W> {
+    let mut d = build_weighted_plain(m, &conv, other);
+    if route_edits(m) {
+        edit_without_effect_w(&mut d, m, &conv, other);
+    }
+    d
+}
+
+fn build_weighted_plain<W: Copy>(m: &Model, conv: &impl Fn(i64) -> W, other: W) -> AdjacencyListWeighted<W> {
     use graaf::{AddArcWeighted, Converse, Empty};
     assert!(m.is_contig() && m.n() > 0);
     match route(m, 7) {
